@@ -795,6 +795,9 @@ class Sim:
 
             sib_field, _ = B.build_field(sib["field"], ctx)
             sib_opts = _dc.replace(options, output_file=None)
+            if sib.get("terminal_psi", "same") != "same":
+                # the sibling treats the terminals differently (pinned vs left free)
+                sib_opts.terminal_psi = sib["terminal_psi"]
             self.sibling = tdgl.TDGLSolver(
                 device,
                 sib_opts,
